@@ -24,7 +24,7 @@ Definition show_flow (f : flow) : str :=
 Definition show_model (o : outcome result) : list str :=
   match o with
   | Out r w => [lit "ok"; show_nat (fst r); show_flow (snd r); show_nat (last (sh w)); show_out (out w);
-                flat_map (fun g => match g with GLeak => lit "L" | GBang => lit "B" | GCond => lit "C" | GCompound => lit "E" end) (ghost w)]
+                flat_map (fun g => match g with GCond => lit "C" end) (ghost w)]
   | OutOfFuel _ => [lit "fuel"]
   end.
 
